@@ -79,6 +79,8 @@ fn one_for<P: Property>(prop: &P, data: &[u8], ctx: &mut Ctx) {
         s.as_ref().and_then(|b| b.downcast_ref::<proptest::strategy::BoxedStrategy<P::Case>>()).cloned()
     });
     let Some(strategy) = strategy else { return };
+    // (vendor/proptest is patched so that an exhausted pass-through stream continues with
+    // pseudo-random bytes instead of zeros, which would hang rejection sampling)
     let rng = TestRng::from_seed(RngAlgorithm::PassThrough, data);
     let mut runner = TestRunner::new_with_rng(Config { failure_persistence: None, ..Config::default() }, rng);
     let case = match strategy.new_tree(&mut runner) {
@@ -105,6 +107,12 @@ fn one_for<P: Property>(prop: &P, data: &[u8], ctx: &mut Ctx) {
     if let Some(v) = new {
         st.violations += 1;
         let path = engine::write_replay_raw(prop, "thorough", ctx.seed, &case, &v);
+        if engine::is_harness_fault(&v) {
+            ctx.stats.violations -= 1;
+            flush(ctx);
+            eprintln!("harness error: a generated case panicked inside the harness: {} — {} (case saved to {})", v.signature, v.detail, path.display());
+            std::process::exit(2);
+        }
         flush(ctx);
         println!("violation: {} — {}", v.signature, v.detail);
         println!("VIOLATION property={} replay={}", prop.id(), path.display());
